@@ -180,8 +180,12 @@ func runProperty(g *Gen, prop, tier, out string, cfg SolverCfg, t0 time.Time) in
 	var samples []any
 	inlinedAll := map[string]bool{}
 
-	for i, r := range rs {
-		pu := pus[i]
+	puOf := map[*Contract]propUnit{}
+	for _, pu := range pus {
+		puOf[pu.ct] = pu
+	}
+	for _, r := range rs {
+		pu := puOf[r.ct]
 		if r.Trusted {
 			trusted = append(trusted, r.Unit)
 			assumptions["trusted contract (body not verified): "+r.Unit+" — "+pu.ct.Why] = true
